@@ -104,7 +104,7 @@ SIZES = {'quick': [0.75, 2.5, 11.0], 'thorough': [0.75, 2.5, 5.25, 11.0]}
 ANGLES = {'quick': [0.0, 30.0, 123.4, 90.0], 'thorough': [0.0, 30.0, 45.0, 90.0, 123.4, -60.0, 270.0]}
 NS = {'quick': [1, 2, 3, 5, 12], 'thorough': list(range(1, 13))}
 BAD_SUBPIXELS = [0, -1, 2.0, '3']
-BAD_MODES = ['centre', 'CENTER', '']
+BAD_MODES = ['centre', 'CENTER', '', 'subpixel', 'Exact', 'sub-pixels']
 
 SIMPLE = G.SIMPLE
 EXACT_OK = ('circle', 'ellipse')          # classes whose 'exact' mode is implemented
@@ -192,6 +192,10 @@ def _operands():
         # an operand too small to cover a pixel centre (for most phases): its mask is all zero, which matters for '&'
         ('empty_mask_operand', circ(0.0, 0.0, 2.5), circ(0.5, 0.5, 0.1875)),
         ('empty_mask_operand', rect(0.0, 0.0, 2.5, 5.25, 30.0), circ(6.5, 3.5, 0.1875)),
+        # the same shape twice, half a pixel apart: at the far centres the two operands are `==` under the position tolerance
+        # of 1e-5 relative, yet they cover different pixels
+        ('dithered', circ(0.0, 0.0, 2.625), circ(0.5, 0.25, 2.625)),
+        ('dithered', rect(0.0, 0.0, 5.25, 2.5, 30.0), rect(-0.5, 0.5, 5.25, 2.5, 30.0)),
     ]
     inner = {'cls': 'compound', 'op': 'or', 'r1': circ(0.0, 0.0, 2.5), 'r2': rect(3.0, 1.0, 5.25, 0.75, 30.0)}
     pairs.append(('nested_compound', inner, ell(1.0, -2.0, 2.5, 11.0, 45.0)))
